@@ -205,6 +205,16 @@ func runHist(c *vt.Ctx, kind string, ops []fsx.Op) *vt.Deviation {
 		if isOK(ol) != isOK(ow) {
 			return mk("agreement", "one succeeds and the other fails")
 		}
+		if isOK(ol) && (o.K == "Glob" || o.K == "ReadDir" || o.K == "ReadFile") {
+			// what isomorphic trees answer to the same question, spelt portably
+			wv := strings.ReplaceAll(strings.ReplaceAll(ow.Val, `C:\\`, "/"), `\\`, "/")
+			if strings.Contains(ol.Val, "home") && strings.Contains(ol.Val, "root") {
+				// the root directory reached through a link: its system directories are those of the OS
+				c.Label("skipped-root-listing")
+			} else if wv != ol.Val {
+				return mk("answers", fmt.Sprintf("the answers differ: Linux-typed %s, Windows-typed %s", ol.Val, wv))
+			}
+		}
 		sl, sw := snapshot(lin, kind, false), snapshot(win, kind, true)
 		if p, f, l, r, same := fsx.Diff(sl, sw); !same {
 			return mk("isomorphic", fmt.Sprintf("trees differ at %s (%s): Linux-typed %q, Windows-typed %q", p, f, l, r))
@@ -425,7 +435,7 @@ func TestCheck(t *testing.T) {
 	for _, kind := range []string{"MemFS", "OrefaFS"} {
 		kind := kind
 		mem := kind == "MemFS"
-		cfg := gen.Config{Symlinks: mem, Root: false, Base: "/w", NoChown: true, NoTemp: true, NoTmp: true}
+		cfg := gen.Config{Symlinks: mem, Root: false, Base: "/w", NoChown: true, NoTemp: true, NoTmp: true, Kinds: append(append([]string{}, gen.AllKinds...), "Glob")}
 		// bounded-exhaustive: every instance once from every start tree
 		trees := cfg.StartTrees()
 		var tn []string
